@@ -31,6 +31,7 @@ DEND = ("dend", ["debug"])
 PROPS = {
     "C07": dict(
         streams=[ALGO, HIST],
+        translators=["formulas"],
         oracles=[dict(name="slot_probe", profiles=["debug", "release"])],
         assumptions=["no-wrap theorem hypothesis n < 2^32"],
     ),
@@ -60,6 +61,13 @@ PROPS = {
         translators=["abi"],
         extras=["capi_headers"],
         assumptions=["the Go toolchain is absent: go-kodama is covered at the text level (translator) and through its header copy compiled into the C driver"],
+    ),
+    "C18": dict(
+        streams=[],
+        translators=["tables"],
+        extras=["cli_runs"],
+        assumptions=["Haversine (libm), CSV parsing (csv/serde) and rayon's order-preserving indexed collect are not modelled; they are exercised by the binary runs only",
+                     "the harness recomputes the expected matrix with the same formula text, sequentially"],
     ),
     "C13": dict(
         streams=[SHAPE],
